@@ -33,6 +33,8 @@ those operations (`interpreter.go: callNativeFunc`), for the fragment
 
 Not modelled: uint32 / int32 wrap-around of frame ids, heights and ranges (bodies have < 2^31 instructions),
 `ensureTermination` (`BuiltinFunctionCheckExitCode` after loop headers; the harness compiles without it),
+operation lists of 2^64-1 or more operations (the return address `math.MaxUint64` is then a valid index; the
+theorems assume `(lowerSym f).length < retAddr`; a Go slice has fewer than 2^63 elements),
 v128 (two-slot values), block parameters (multi-value block types), DWARF offsets.
 
 Core Lean only (linked into the `oracle` executable).
@@ -435,12 +437,10 @@ def step (op : FlatOp) (pc : Nat) (stk : List Nat) : Step :=
     | b :: a :: s => numStep n [a, b] s pc
     | _ => .panic "pop"
 
-/-- the loop `for frame.pc < bodyLen`: run from `pc`; the stack when the loop is left.  `bodyLen` is a Go `int`
-(< 2^63), so `pc = math.MaxUint64` (the resolved return label) always leaves the loop. -/
+/-- the loop `for frame.pc < bodyLen`: run from `pc`; the stack when the loop is left -/
 def runFrom (code : List FlatOp) : Nat → Nat → List Nat → Except FlatOut (List Nat)
   | 0, _, _ => .error .exhausted
   | fuel + 1, pc, stk =>
-    if pc = retAddr then .ok stk else
     match code[pc]? with
     | none => .ok stk
     | some op =>
